@@ -240,6 +240,7 @@ def run(ctx):
         scoping(ctx, forest, paths)
         known(ctx, forest)
         collating_specials(ctx, forest)
+        collating_members(ctx, forest)
         wrapper(ctx)
     finally:
         forest.close()
@@ -353,6 +354,33 @@ def collating_specials(ctx, forest):
     kc._judge(ctx, "C17", "collating-specials", "find cs -regextype posix-extended -regex 'cs/[[.-.]x]' matches %s, not cs/- and cs/x (a collating symbol naming '-': the engine ends the bracket expression at its '.]')"
               % [g.decode() for g in got], code == 0 and got == [b"cs/-", b"cs/x"], code == 0 and got == [b"cs/.x]", b"cs/[x]"],
               "exit %s, matched %r" % (code, got))
+
+
+def collating_members(ctx, forest):
+    """bracket expressions whose reading by the engine, were the collating symbols not spelled first, would be malformed or another:
+    a range ending in a symbol, a symbol followed by members that are operators outside brackets (eighth wave; every expected
+    set is the POSIX reading of the bracket expression)"""
+    d = os.path.join(forest.dir, b"cm")
+    os.mkdir(d)
+    for n in (b"a", b"b", b"x", b"z", b"{", b"[", b"(", b"A", b"Z"):
+        open(os.path.join(d, n), "wb").close()
+    rows = [("posix-extended", b"-regex", b"cm/[a-[.z.]]", [b"a", b"b", b"x", b"z"]), ("posix-basic", b"-regex", b"cm/[a-[.z.]]", [b"a", b"b", b"x", b"z"]),
+            ("grep", b"-iregex", b"cm/[A-[.Z.]]*[x-[.z.]]", [b"x", b"z", b"Z"]), ("sed", b"-regex", b"cm/[^a-[.z.]]", [b"(", b"[", b"{", b"A", b"Z"]),
+            ("ed", b"-regex", b"cm/[{-[.}.]]", [b"{"]), ("posix-extended", b"-regex", b"cm/[[.a.]({]", [b"(", b"a", b"{"]),
+            ("posix-extended", b"-regex", b"cm/[[=a=]{]", [b"a", b"{"]), ("posix-extended", b"-regex", b"cm/[[.a.]|*]", [b"a"]),
+            ("posix-basic", b"-regex", b"cm/[[.a.]\\(]", [b"(", b"a"]), ("posix-basic", b"-regex", b"cm/[[.a.]\\1]", [b"a"]),
+            ("emacs", b"-regex", b"cm/[[.a.]\\(]", [b"(", b"a"]), ("emacs", b"-regex", b"cm/[[=a=][]", [b"[", b"a"]),
+            ("emacs", b"-regex", b"cm/[a-[.z.]]", [b"a", b"b", b"x", b"z"]), ("posix-extended", b"-regex", b"cm/[[.a.]-[.z.]]", [b"a", b"b", b"x", b"z"])]
+    for ty, flag, pat, want in rows:
+        line = "find - %s %s" % (fw.hexs(forest.dir), xc.hexlist([b"cm", b"-mindepth", b"1", b"-regextype", ty.encode(), flag, pat, b"-print0"]))
+        code, out, err = wc.decode_find(xc.run_impl([line])[0])
+        got = sorted(out.split(b"\0")[:-1])
+        exp = sorted(b"cm/" + w for w in want)
+        ctx.count(("collating-members", ty, pat, flag), True, "collating-members")
+        if code != 0 or got != exp:
+            ctx.violation("find cm -regextype %s %s %r: exit %s, matched %r; the language contains %r (%s)" % (ty, flag.decode(), pat, code, got, exp, err[:80]),
+                          {"property": "C17", "kind": "collating-members", "regextype": ty, "pattern": pat.decode(), "exit": str(code),
+                           "matched": [g.decode() for g in got], "language": [e.decode() for e in exp], "stderr": err.decode("utf-8", "replace")[:200]})
 
 
 def wrapper(ctx):
